@@ -280,6 +280,38 @@ def group_is_float(body):
     return group_is_int(body) or body in FLOAT_GROUP_EXTRA
 
 
+def group_can_be_none(pattern, name):
+    """The named group sits under an optional construct (``(...)?``, ``*``,
+    an alternative of a branch): match.group(name) may be None."""
+    try:
+        import re._parser as P
+        tree = P.parse(pattern)
+        idx = tree.state.groupdict.get(name)
+    except Exception:
+        return False
+    if idx is None:
+        return False
+    found = [False]
+
+    def walk(its, optional):
+        for op, av in its:
+            nm = str(op)
+            if nm in ('MAX_REPEAT', 'MIN_REPEAT', 'POSSESSIVE_REPEAT'):
+                lo, hi, sub = av
+                walk(list(sub), optional or lo == 0)
+            elif nm == 'SUBPATTERN':
+                if av[0] == idx and optional:
+                    found[0] = True
+                walk(list(av[-1]), optional)
+            elif nm == 'BRANCH':
+                for alt in av[1]:
+                    walk(list(alt), True)
+            elif nm in ('ASSERT', 'ASSERT_NOT'):
+                walk(list(av[1]), optional)
+    walk(list(tree), False)
+    return found[0]
+
+
 def group_is_bounded(body, limit=4300):
     """Every repetition of the group has a finite maximum whose product
     stays under CPython's limit for int(<text>) (4300 digits since 3.11):
@@ -329,6 +361,14 @@ class ExcFlow(object):
         self._patterns = {}
         self.stats = {'functions': 0, 'raise_sites': 0, 'primitive_sites': 0,
                       'dropped_by_regex': 0}
+
+    def _group_read_without_default(self, f, expr):
+        """The conversion's argument is match.group(name) (None for a group
+        that did not take part) rather than an entry of groupdict(default)."""
+        for y in ast.walk(expr):
+            if isinstance(y, ast.Call) and call_name(y) == 'group':
+                return True
+        return False
 
     # -- patterns -----------------------------------------------------------
     def patterns_of(self, f, expr, depth=0):
@@ -572,6 +612,15 @@ class ExcFlow(object):
                             group_is_bounded(c[g]) for c in cands):
                         # \d+ admits more digits than int() converts
                         ok = False
+                    withg = [ptn for ptn in pats if g in named_groups(ptn)]
+                    # (cls._x_re is resolved over every class that has one:
+                    # the group must be optional in all of them)
+                    if withg and all(group_can_be_none(ptn, g)
+                                     for ptn in withg) and \
+                            self._group_read_without_default(f, a):
+                        # int(None) / float(None)
+                        self.stats['primitive_sites'] += 1
+                        return ['TypeError']
                 if ok:
                     self.stats['dropped_by_regex'] += 1
                     return []
